@@ -1,9 +1,9 @@
 package main
 
 import (
-	"gosym/interp"
-	"go/ast"
 	"fmt"
+	"go/ast"
+	"gosym/interp"
 	"os"
 	"path/filepath"
 	"regexp"
@@ -31,6 +31,7 @@ func outDir() string {
 	}
 	return verifDir()
 }
+
 const repoModule = "github.com/Oneledger/protocol"
 
 func verifDir() string {
